@@ -169,7 +169,8 @@ def build_tf(ctx, tfp, inv, rule_grid):
     fixed = dict(p.get("fixed", {}))
     xmax = float(np.max(rule_grid.points[np.isfinite(rule_grid.points)]))
     if p["kind"] == "Hyperbolic":
-        top = max(xmax, rule_grid.size - 1, 1.0)
+        dom_hi = rule_grid.domain[1] if rule_grid.domain is not None and np.isfinite(rule_grid.domain[1]) else 0.0
+        top = max(xmax, dom_hi, rule_grid.size - 1, 1.0)  # pole 1/b beyond the nodes AND beyond a finite domain end
         fixed.setdefault("b", float(rng.uniform(0.05, 0.9)) / top)
     if p["kind"] in ("LinearInfinite", "Exp", "Power") and p.get("bmode") == "explicit":
         fixed.setdefault("b", xmax * float(10 ** rng.uniform(-0.5, 0.5)))
